@@ -8,13 +8,11 @@ export GOFLAGS=-mod=mod GOPROXY=off GOSUMDB=off GOTOOLCHAIN=local
 wt=/tmp/sv-$id
 git -C /repo worktree remove --force $wt 2>/dev/null
 git -C /repo worktree add -q $wt HEAD || exit 2
-pkgdir=builtInFunctions
-head -5 $src/demo_test.go | grep -q "parsers" && pkgdir=parsers
-grep -q "^package vmcommon" $src/demo_test.go && pkgdir=.
-grep -q "^package data" $src/demo_test.go && pkgdir=data
-grep -q "^package atomic" $src/demo_test.go && pkgdir=atomic
-grep -q "^package container" $src/demo_test.go && pkgdir=container
-grep -q "^package txDataBuilder" $src/demo_test.go && pkgdir=txDataBuilder
+pk=$(grep -m1 '^package ' $src/demo_test.go | awk '{print $2}' | sed 's/_test$//')
+case $pk in
+  esdt) pkgdir=data/esdt;; data) pkgdir=data;; parsers) pkgdir=parsers;; vmcommon) pkgdir=.;; atomic) pkgdir=atomic;; container) pkgdir=container;;
+  txDataBuilder) pkgdir=txDataBuilder;; check) pkgdir=check;; *) pkgdir=builtInFunctions;;
+esac
 cp $src/demo_test.go $wt/$pkgdir/zz_seed_demo_test.go
 ( cd $wt && go test -vet=off -count=1 -run 'TestC[0-9]|Seed|Demo' ./$pkgdir/ >/tmp/sv-$id.clean.log 2>&1 ); clean_demo=$?
 # whole-file demo: run all tests of the demo file by name
